@@ -94,3 +94,9 @@ func vsEqualSpec(mm MapMemory, a0 interface{}) bool {
 	a, ok := a0.(MapMemory)
 	return ok && vsMapsEqual(mm, a)
 }
+
+// vsFreshMap: the map was created by the function under verification, so no
+// later write through it can be seen through any map the caller held before.
+// Ghost built-in of vcheck (object freshness); the replay harness cannot
+// observe identity and accepts any non-nil map.
+func vsFreshMap(m MapMemory) bool { return m != nil }
